@@ -92,15 +92,25 @@ ASSUMPTIONS = [
     "operands ever passed (arrays, lists of arrays, sparse matrices, index arrays)",
     "a carrier added to itself in place is run under a 0.4 s CPU-time guard (ITIMER_VIRTUAL); reaching the guard "
     "is reported as non-termination",
+    "sparse operands: csr/csc/coo_matrix, csr/csc_array (coo_array only in contract_multi: scipy 1.18 returns a 0-d "
+    "scalar for vector @ coo_array((n,1)), which is not pyMOTO's doing)",
+    "mechanism names are <public operation>/<what is wrong>; the workload variant (e.g. g_row, contract_batch_all) is "
+    "part of the witness; storage sharing is attributed to the operation that created it "
+    "(<operation>/result-shares-storage-with-its-operand), the in-place operation that revealed it is in the witness",
 ]
 FLOORS = {
-    "quick": {"cases_held": 4000, "distinct_nontrivial": 3500, "ops_checked": 20000, "entries_compared": 150000,
-              "purity_digests": 80000, "ops_on_empty_carrier": 3000, "ops_mixed_real_complex": 3000,
-              "inplace_with_bystanders": 4000, "inv_dyad": 50000},
-    "thorough": {"cases_held": 40000, "distinct_nontrivial": 35000, "ops_checked": 300000,
-                 "entries_compared": 2500000, "purity_digests": 1500000, "ops_on_empty_carrier": 30000,
-                 "ops_mixed_real_complex": 40000, "inplace_with_bystanders": 60000, "inv_dyad": 700000},
+    # about half of what the unchanged (repaired) tree reaches; every operation of the catalogue has its own floor
+    "quick": {"cases_held": 7500, "distinct_nontrivial": 7500, "ops_checked": 65000, "entries_compared": 400000,
+              "purity_digests": 600000, "sequence_steps": 20000, "ops_on_empty_carrier": 6500,
+              "ops_mixed_real_complex": 13000, "inplace_with_bystanders": 3400, "inv_dyad": 1000000},
+    "thorough": {"cases_held": 88000, "distinct_nontrivial": 85000, "ops_checked": 1250000,
+                 "entries_compared": 11000000, "purity_digests": 15000000, "sequence_steps": 480000,
+                 "ops_on_empty_carrier": 160000, "ops_mixed_real_complex": 260000, "inplace_with_bystanders": 78000,
+                 "inv_dyad": 23000000},
 }
+for _o in ALL_OPS:
+    FLOORS["quick"]["op:" + _o] = 80
+    FLOORS["thorough"]["op:" + _o] = 900
 
 
 # ----------------------------------------------------------------------------- plan
@@ -227,7 +237,13 @@ class Prog:
     def arr(self, shape, cplx):
         a = self.rng.standard_normal(shape)
         if cplx:
-            a = a + 1j * self.rng.standard_normal(shape)
+            t = self.rng.random()
+            if t < 0.10:          # purely imaginary
+                a = 1j * a
+            elif t < 0.15:        # complex dtype, zero imaginary part
+                a = a + 0j
+            else:
+                a = a + 1j * self.rng.standard_normal(shape)
         return a
 
     def vec(self, n, role):
@@ -328,8 +344,9 @@ class Prog:
             for r in self.regs:      # the same object held twice (a result that *is* its operand)
                 if r is not target and r.D is target.D:
                     if not (r.M.shape == target.M.shape and np.array_equal(r.M, target.M)):
-                        raise Violation(f"{op}/changes-another-carrier-through-shared-storage",
-                                        note="an earlier operation returned its operand itself instead of a new carrier",
+                        culprit = self._culprit(r, target) or op
+                        raise Violation(f"{culprit}/result-shares-storage-with-its-operand", revealed_by=variant,
+                                        note="an operation returned its operand itself instead of a new carrier",
                                         trace=self.trace[-6:])
                     r.dig = target.dig
             if len(self.regs) > 1:
